@@ -360,7 +360,7 @@ def listing_case(draw):
         # unusual but legal file names; the same file listed a second time
         for i in range(len(files)):
             if draw(st.integers(0, 2)) == 0:
-                names[str(i)] = draw(st.sampled_from(['with space {}.mos.xml', 'é中 {}.xml', 'a=b{}.mos.xml', '{}', 'UPPER{}.MOS.XML',
+                names[str(i)] = draw(st.sampled_from(['with space {}.mos.xml', 'é中 {}.xml', 'a=b{}.mos.xml', '{}', 'UPPER{}.MOS.XML', 'rundown[{}].mos.xml', 'f{}.mos.xm?', 'f{}*.xml',
                                                       'x{}.mos.xml.bak', "it's{}.xml"])).format(i)
         files.insert(draw(st.integers(1, len(files))), ('same-as-first', None))
     relative = False
